@@ -113,9 +113,51 @@ BUILDS = {
     "opts": Build("opts", cargo_env={"CARGO_PROFILE_RELEASE_OPT_LEVEL": "s"}),
     "optz": Build("optz", cargo_env={"CARGO_PROFILE_RELEASE_OPT_LEVEL": "z"}),
     "native": Build("native", rustflags="-C target-cpu=native"),
+    # mixed configurations: conjunctions of settings select code too (cfg(all(panic = "abort", not(feature = "alloc"))) ...)
+    "mix-noalloc-abort-s-native": Build("mix-noalloc-abort-s-native", features=["x25519", "p256", "p384", "p521"],
+                                        rustflags="-C panic=abort -C target-cpu=native", cargo_env={"CARGO_PROFILE_RELEASE_OPT_LEVEL": "s"}),
+    "mix-std-abort-z": Build("mix-std-abort-z", features=["std", "x25519", "p256", "p384", "p521"], rustflags="-C panic=abort",
+                             cargo_env={"CARGO_PROFILE_RELEASE_OPT_LEVEL": "z", "CARGO_PROFILE_RELEASE_DEBUG_ASSERTIONS": "false", "CARGO_PROFILE_RELEASE_OVERFLOW_CHECKS": "false"}),
     # the cfg that cargo-fuzz / afl / honggfuzz set on the whole dependency graph (some crates weaken checks under it)
     "cfg-fuzzing": Build("cfg-fuzzing", rustflags="--cfg fuzzing --check-cfg cfg(fuzzing)"),
 }
+
+
+def pairwise_builds():
+    """A small set of driver builds in which every PAIR of settings of the axes
+    features {alloc, std, none} x opt-level {0, 2, 3, s, z} x panic {unwind, abort} x target-cpu {baseline, native} x
+    debug-assertions {on, off} occurs together at least once (greedy covering array, deterministic)."""
+    import itertools
+    axes = [("feat", ["alloc", "std", "none"]), ("opt", ["2", "s", "0", "3", "z"]), ("panic", ["unwind", "abort"]),
+            ("cpu", ["base", "native"]), ("dbg", ["on", "off"])]
+    need = set()
+    for (i, (_, va)), (j, (_, vb)) in itertools.combinations(list(enumerate(axes)), 2):
+        for a in va:
+            for b in vb:
+                need.add((i, a, j, b))
+    rows = []
+    allrows = list(itertools.product(*[v for _, v in axes]))
+    while need:
+        best, gain = None, -1
+        for r in allrows:
+            g = sum(1 for (i, a, j, b) in need if r[i] == a and r[j] == b)
+            if g > gain:
+                best, gain = r, g
+        rows.append(best)
+        need = {(i, a, j, b) for (i, a, j, b) in need if not (best[i] == a and best[j] == b)}
+    out = []
+    kems = ["x25519", "p256", "p384", "p521"]
+    for feat, opt, panic, cpu, dbg in rows:
+        name = "pw-%s-o%s-%s-%s-d%s" % (feat, opt, panic, cpu, dbg)
+        flags = []
+        if panic == "abort":
+            flags.append("-C panic=abort")
+        if cpu == "native":
+            flags.append("-C target-cpu=native")
+        out.append(Build(name, features=([feat] if feat != "none" else []) + kems, rustflags=" ".join(flags),
+                         cargo_env={"CARGO_PROFILE_RELEASE_OPT_LEVEL": opt, "CARGO_PROFILE_RELEASE_DEBUG_ASSERTIONS": "true" if dbg == "on" else "false",
+                                    "CARGO_PROFILE_RELEASE_OVERFLOW_CHECKS": "true" if dbg == "on" else "false"}))
+    return out
 
 
 def build_driver(b, timeout=1800):
